@@ -8,6 +8,7 @@ from ..explorer import run_once
 from ..nd import explore_nd
 
 PID = "C17"
+BOTH_CONSTRUCTION_PATHS = True  # every program once with constructor-built and once with decorator-built nodes (mc/dsl.py VIA)
 LEVEL = "model_checking"
 TECHNIQUE = "explicit-state model checking of the real scheduler on emit/wait_for programs with nondeterministic gates and data nodes (state pruning at superstep boundaries), signal safety monitor on every step and liveness judged at quiescent terminal states; plus exact iteration counts of signal-synchronised loops"
 LEVEL_TEXT = (
